@@ -1,0 +1,43 @@
+// Package jsescape escapes text for the inside of a JavaScript string literal.
+package jsescape
+
+import (
+	"fmt"
+	"io"
+	"strings"
+	"text/template"
+	"unicode"
+	"unicode/utf16"
+	"unicode/utf8"
+)
+
+// String is template.JSEscapeString, except for a rune above U+FFFF that is
+// not printable.  The library writes such a rune as \u followed by five or six
+// hex digits (it formats the rune with %04X), which JavaScript reads as a
+// four-digit escape followed by literal digits, i.e. as a different string.
+// Here it is written as the two \uXXXX escapes of its surrogate pair.
+func String(s string) string {
+	var (
+		buf  strings.Builder
+		last = 0
+	)
+	for i, r := range s {
+		if r < 0x10000 || unicode.IsPrint(r) {
+			continue
+		}
+		var hi, lo = utf16.EncodeRune(r)
+		buf.WriteString(template.JSEscapeString(s[last:i]))
+		fmt.Fprintf(&buf, `\u%04X\u%04X`, hi, lo)
+		last = i + utf8.RuneLen(r)
+	}
+	if last == 0 {
+		return template.JSEscapeString(s)
+	}
+	buf.WriteString(template.JSEscapeString(s[last:]))
+	return buf.String()
+}
+
+// Write writes the escaped form of b (see String) to w.
+func Write(w io.Writer, b []byte) {
+	io.WriteString(w, String(string(b)))
+}
